@@ -14,6 +14,7 @@ type ClauseOpt struct {
 	MaxDepth int  // depth of And/Or/Not nesting (leaf = 0)
 	NoFuncs  bool // no predicate functions (used where callbacks must not be involved)
 	NoLike   bool
+	Focus    string // a column half of the leaves are about ("" = none)
 }
 
 var ordComps = []string{"<", "<=", ">", ">=", "=", "!="}
@@ -111,6 +112,9 @@ func likePatternFor(t *rapid.T, c Col) string {
 // GenLeaf draws a well-typed leaf over the columns of tab.
 func GenLeaf(t *rapid.T, tab Table, o ClauseOpt) Clause {
 	c := tab.Cols[rapid.IntRange(0, len(tab.Cols)-1).Draw(t, "leafcol")]
+	if o.Focus != "" && tab.Find(o.Focus) >= 0 && rapid.Bool().Draw(t, "leaffocus") {
+		c = tab.MustCol(o.Focus)
+	}
 	var l Clause
 	pick := rapid.IntRange(0, 9).Draw(t, "leafkind")
 	switch c.Kind {
